@@ -29,6 +29,14 @@ def add_tree(root):
 add_tree(f"{V}/overlay/repo")
 add_tree(f"{V}/engine/checks/{cid}/overlay/repo")
 
+# mutated copies (mutate.sh): rel=src;rel=src;
+muts = {}
+for m in os.environ.get("VERIF_MUT_FILES", "").split(";"):
+    if "=" in m:
+        rel, src = m.split("=", 1)
+        muts[rel] = src
+        replace[os.path.join(REPO, rel)] = src
+
 conf = f"{V}/engine/checks/{cid}/instrument.json"
 if os.path.exists(conf):
     out = f"{V}/build/{cid}/instr"
@@ -39,7 +47,13 @@ if os.path.exists(conf):
     if r.returncode != 0:
         sys.stderr.write(r.stderr)
         sys.exit(2)
-    r = subprocess.run([exe, "-conf", conf, "-repo", REPO, "-out", out], capture_output=True, text=True)
+    if muts:
+        out = out + "-mut"
+        os.makedirs(out, exist_ok=True)
+    args = [exe, "-conf", conf, "-repo", REPO, "-out", out]
+    for rel, src in muts.items():
+        args += ["-src", f"{rel}={src}"]
+    r = subprocess.run(args, capture_output=True, text=True)
     if r.returncode != 0:
         sys.stderr.write(r.stdout + r.stderr)
         sys.exit(2)
